@@ -40,8 +40,14 @@
 (*              eon, oldest first, tokens "S" = the keyper set             *)
 (*              <<member 0, .., member n-1>>, "X" = another set of the     *)
 (*              same size and threshold <<outsider, member 0, .., member   *)
-(*              n-2>> (a re-announcement after a reorg).  The set of the   *)
-(*              eon is the LAST one announced.                             *)
+(*              n-2>> (a re-announcement after a reorg), "O" = the set S   *)
+(*              announced for ANOTHER eon.  The set of the eon is the LAST *)
+(*              one announced for it; with no "S"/"X" in c.ann the eon has *)
+(*              no keyper set (lookup miss: nothing synced yet, or only    *)
+(*              another eon's set).                                        *)
+(*   c.key      the access node's eon public key of the message's eon:     *)
+(*              "before" / "after" = stored before / after the keyper set  *)
+(*              announcements, "none" = not stored                         *)
 (*                                                                         *)
 (* LenRule names the two versions of the loops over the parallel lists:    *)
 (*   "asfound"  the code before fix C06-1: the signature loop runs over    *)
@@ -53,7 +59,8 @@
 EXTENDS Integers, Sequences, FiniteSets
 
 CONSTANTS LenRule,    \* "equal" | "asfound"
-          StoreRule   \* "last" | "first"  (access node storage, see StoreFold)
+          StoreRule,  \* "last" | "first"  (access node storage, see StoreFold)
+          MissRule    \* "reject" | "accept" (access node, keyper set of the eon unknown)
 
 GnosisFields  == {"instance", "eon", "slot", "txptr", "ids"}
 ServiceFields == {"instance", "eon", "ids"}
@@ -125,10 +132,12 @@ ValidateService(c, set) ==
 
 ValidateWith(c, set) == IF c.f = "gnosis" THEN ValidateGnosis(c, set) ELSE ValidateService(c, set)
 
-(* the set of the eon: the last announcement *)
-EonSet(c) == c.ann[Len(c.ann)]
+(* the set of the eon: the last announcement made for it ("" = none) *)
+RECURSIVE LastFor(_, _)
+LastFor(ann, i) == IF i = 0 THEN "" ELSE IF ann[i] # "O" THEN ann[i] ELSE LastFor(ann, i - 1)
+EonSet(c) == LastFor(c.ann, Len(c.ann))
 
-(* the bare functions are handed the keyper set of the eon by their caller *)
+(* the bare functions are handed the keyper set of the eon by their caller (no set, no call) *)
 ValidateSignatures(c) == ValidateWith(c, EonSet(c))
 
 (* gnosisaccessnode.Storage.AddKeyperSet / GetKeyperSet and node.onNewKeyperSet: a map keyed by
@@ -137,16 +146,26 @@ ValidateSignatures(c) == ValidateWith(c, EonSet(c))
 RECURSIVE StoreFold(_, _, _)
 StoreFold(ann, i, cur) ==
     IF i > Len(ann) THEN cur
-    ELSE StoreFold(ann, i + 1, IF StoreRule = "first" /\ cur # "" THEN cur ELSE ann[i])
+    ELSE StoreFold(ann, i + 1, IF ann[i] = "O" \/ (StoreRule = "first" /\ cur # "") THEN cur ELSE ann[i])
 StoredSet(c) == StoreFold(c.ann, 1, "")
-AccessValidateMessage(c) == ValidateWith(c, StoredSet(c))
+
+(* gnosisaccessnode DecryptionKeysHandler.ValidateMessage for a message whose other fields pass
+   (instance id, valid ordered decryption keys, extra present, slot/txptr in range):
+   validateCommonFields looks up the eon key (miss: reject), validateGnosisFields the keyper
+   set (miss: reject), then ValidateDecryptionKeysSignatures decides.  MissRule "accept" is the
+   named alternative in which a missing keyper set lets the message through. *)
+AccessValidateMessage(c) ==
+    IF c.key = "none" THEN {Out("reject", "nokey")}
+    ELSE IF StoredSet(c) = "" THEN {IF MissRule = "accept" THEN Accept ELSE Out("reject", "noset")}
+    ELSE ValidateWith(c, StoredSet(c))
 
 (* DecryptionKeysHandler.ValidateMessage of the gnosis keyper and of the service keyper, for a
    message whose other fields pass (extra present, slot/txptr in range, at least one key): the
-   keyper set is read from the database row of the eon (the observer upserts it), the verdict is
-   the one of ValidateDecryptionKeysSignatures.  The access node (other fields: instance id,
-   valid ordered keys) reads it from its Storage: AccessValidateMessage above. *)
-ValidateMessage(c) == ValidateSignatures(c)
+   keyper set is read from the database row of the eon (the observer upserts it; no row: reject,
+   also for the service flavour's message without signatures), the verdict is the one of
+   ValidateDecryptionKeysSignatures. *)
+ValidateMessage(c) ==
+    IF EonSet(c) = "" THEN {Out("reject", "noset")} ELSE ValidateSignatures(c)
 
 (* DecryptionKeysHandler.HandleMessage (both flavours):
    `for i, keyperIndex := range SignerIndices { ... Signatures[i] ... }` *)
